@@ -392,8 +392,8 @@ theorem step_nonmarker {s : State} (hT : s.missingTerm ≠ 0) (r : Nat) {e : Ele
   cases e with
   | term => exact absurd rfl ht
   | far => exact absurd rfl hf
-  | item a => simp [step, hT]
-  | ts a t => simp [step, hT]
+  | item a => simp only [step, hT, if_false]; cases s.pending <;> simp
+  | ts a t => simp only [step, hT, if_false]; cases s.pending <;> simp
   | flushBatch => simp [step, hT]
   | wm t =>
     simp only [step, hT, if_false]
